@@ -313,7 +313,7 @@ def k1(env: Env, out: Outcome, workdir: str) -> None:
                     "boot|r1", "load", "has", "addop|r1|5|x", "addop|r1|9|y", "addop|r2|9|z", "purge|5", "boot|r2", "purge|0", "dump",
                     "boot|r3", "has", "purge|0", "record|a:0", "record|a:0", "boot|r3", "load", "truncate|r3|1", "rawload|r3", "dump"])
     streams.append(["new", "boot|r1"] + MALFORMED + ["dump"])
-    for _ in range(env.budget(25, 400)):
+    for _ in range(env.budget(15, 150)):
         streams.append(gen_k1_stream(env.rng, env.rng.randint(10, 60)))
     drv = Driver(MODEL)
     flat = [l for s in streams for l in s]
@@ -417,7 +417,7 @@ def k2(env: Env, out: Outcome, workdir: str) -> None:
                     {"op": "wait", "keys": ["a:0", "__pull__:0"], "pending": 0, "done": ["__pull__:0", "a:0"], "fid": 2},
                     {"op": "wait", "keys": ["c:0"], "pending": 1, "done": ["c:0"], "fid": 4},        # transition: purge fid > 4
                     {"op": "wait", "keys": [], "pending": 0, "done": [], "fid": 5}])
-    for _ in range(env.budget(12, 200)):
+    for _ in range(env.budget(12, 120)):
         scripts.append(gen_script())
 
     def named(key: str, task: Any) -> Any:
@@ -678,7 +678,7 @@ def run_case(spec: dict, seed: int, out: Outcome, env: Env, *, actions: list[int
     for s in snaps:
         rseed = seed * 31 + s["index"]
         sub_filter = None
-        if second_level:
+        if second_level and s["index"] % 4 == 0:
             srng = random.Random(rseed)
             sub_filter = lambda kind, meta: kind.startswith("journal_") and srng.random() < 0.5  # noqa: E731
         rec = R.recover_run(spec, s, rseed, snap_filter=sub_filter)
@@ -687,22 +687,24 @@ def run_case(spec: dict, seed: int, out: Outcome, env: Env, *, actions: list[int
         out.count("recoveries")
         out.count("stop_point:" + s["kind"])
         out.nontrivial(("rec", name, seed, s["kind"], s["writes"]))
-        check_process(rec, "recovered run", case, out)
         tag = check_recovery(ref, s, rec, case, out, det)
+        if tag != "timer":  # after a replay that is known to diverge (timer finding) the process is not a valid execution
+            check_process(rec, "recovered run", case, out)
         out.count("recovery:" + tag)
         out.count("replayed_entries", len(s["journal"]))
         l2, i2 = k3_lines(rec, [tuple(r) for r in s["journal"]])
         streams.append((l2, i2, case))
-        if second_level and tag in ("ok", "ok-dirty"):
+        if second_level and tag in ("ok", "ok-dirty") and s["index"] % 4 == 0:
             subs = [x for x in rec.snapshots if x["state"]["workflows"].get(R.RUN_ID, {}).get("status") == "PENDING"][:second_level]
             for x in subs:
                 rec2 = R.recover_run(spec, x, rseed * 17 + x["index"])
                 case2 = dict(case, second={"kind": x["kind"], "writes": x["writes"]})
                 out.evaluations += 1
                 out.count("recoveries_second_level")
-                check_process(rec2, "twice recovered run", case2, out)
                 x = dict(x, dirty=bool(x.get("dirty")) or bool(s.get("dirty")))
                 tag2 = check_recovery(rec, x, rec2, case2, out, det and tag == "ok")
+                if tag2 != "timer":
+                    check_process(rec2, "twice recovered run", case2, out)
                 out.count("recovery2:" + tag2)
     # K3: every wait_for_next_task call of every process against the model
     flat = [l for (ls, _i, _c) in streams for l in ls]
@@ -806,7 +808,7 @@ def run(env: Env) -> Outcome:
         k2(env, out, workdir)
         # ---- corpus: hand-picked workflows, every journal length; then the two known-finding witnesses
         for c in CORPUS_INLINE:
-            run_case(c["spec"], c["seed"], out, env, other_p=0.5, max_recover=env.budget(14, 200), name="corpus:" + c["name"],
+            run_case(c["spec"], c["seed"], out, env, other_p=0.5, max_recover=env.budget(14, 60), name="corpus:" + c["name"],
                      second_level=1 if env.tier != "quick" else 0)
         for fn in CORPUS_FILES:
             path = os.path.join(VERIF, "harness", "corpus", fn)
@@ -817,24 +819,24 @@ def run(env: Env) -> Outcome:
             run_case(c["spec"], c["seed"], out, env, actions=c.get("actions"), other_p=c.get("other_p", 0.0),
                      select=_selector(c.get("select")), name="witness:" + fn)
         # ---- generated: deterministic family, timer-free (the guards of the theorems hold: monitors must be silent)
-        n_specs = env.budget(3, 40)
+        n_specs = env.budget(3, 12)
         for i in range(n_specs):
             spec = specgen.gen_det_spec(env.rng)
             out.count("spec:det")
             run_case(spec, env.rng.randrange(1 << 30), out, env, other_p=0.15 if env.tier == "quick" else 0.4,
-                     max_recover=env.budget(9, 80), name=f"det{i}", second_level=0 if env.tier == "quick" else 2)
+                     max_recover=env.budget(8, 45), name=f"det{i}", second_level=0 if env.tier == "quick" else 1)
         # ---- generated: general timer-free workflows (failures, handlers, collects): replayed part only
-        for i in range(env.budget(1, 15)):
+        for i in range(env.budget(1, 8)):
             spec = specgen.gen_spec(env.rng, family="general", allow_wait=False, allow_retry=False, allow_external=False,
                                     allow_timeout=False)
             spec["externals"] = []
             out.count("spec:general")
-            run_case(spec, env.rng.randrange(1 << 30), out, env, other_p=0.2, max_recover=env.budget(5, 40), det=False, name=f"gen{i}")
+            run_case(spec, env.rng.randrange(1 << 30), out, env, other_p=0.2, max_recover=env.budget(5, 20), det=False, name=f"gen{i}")
         # ---- generated: retry delays (scheduled wakeups): anything that differs here is classified by its exact cause
-        for i in range(env.budget(1, 10)):
+        for i in range(env.budget(1, 6)):
             spec = specgen.gen_det_spec(env.rng, delays=True)
             out.count("spec:det+delays")
-            run_case(spec, env.rng.randrange(1 << 30), out, env, other_p=0.1, max_recover=env.budget(4, 40), name=f"delay{i}")
+            run_case(spec, env.rng.randrange(1 << 30), out, env, other_p=0.1, max_recover=env.budget(4, 20), name=f"delay{i}")
     finally:
         shutil.rmtree(workdir, ignore_errors=True)
     return out
